@@ -177,6 +177,19 @@ CLAIMED["C14"] = dict(
     technique="TLA+ spec (ExactSums: centroid numerators, Area2) + TLC enumeration of catalogue polygons; "
               "observation checking by TLC")
 
+CLAIMED["C08"] = dict(
+    text="Model checking: the Bounds specification states the box on NAMED dimensions (x, y, z, m), so order "
+         "independence and Z-with-Z / M-with-M are part of the definition; TLC checks on the model that the tight box "
+         "does not depend on the order of extension and that Overlap is symmetric. It enumerates every history of "
+         "Extend calls up to the bound over a palette mixing XY/XYZ/XYM/XYZM geometries (empty, one, two coords) "
+         "from every initial layout, every collection tree nested to depth 2 with mixed layouts and empty members, "
+         "and every pair of small boxes (incl. the canonical empty box) / box and point; after every step the real "
+         "Layout/Min/Max/IsEmpty, each geometry's own Bounds(), GeometryCollection.Bounds(), Overlaps (both "
+         "directions) and OverlapsPoint are decided by TLC.",
+    ref="DESIGN.md 3.2, 4-C08", note="Bounded: history length, palette, tree depth, interval endpoints. Trusted base: " + TB,
+    technique="TLA+ spec (Bounds: Tight, Join, Overlap) + TLC exhaustive enumeration of Extend histories, collection "
+              "trees and box pairs; trace/observation checking by TLC")
+
 NOT_YET = {}
 
 
